@@ -1091,7 +1091,12 @@ func callBuiltin(caller *frame, callpos token.Pos, fn *ssa.Builtin, args []value
 		case *smap:
 			m.clear()
 		case []value:
-			panic(unsupported("clear(slice)"))
+			if len(m) > 0 {
+				z := zero(fn.Type().(*types.Signature).Params().At(0).Type().Underlying().(*types.Slice).Elem())
+				for k := range m {
+					m[k] = z
+				}
+			}
 		}
 		return nil
 
